@@ -679,6 +679,16 @@ func execGen(env *sim.Env, c GenCase, prop string) CaseResult {
 		res.Infra = fmt.Errorf("driver output: %v", err)
 		return res
 	}
+	// event log: a digest of everything the driver recorded except addresses
+	{
+		h := ""
+		for _, fr := range reports {
+			for _, rr := range fr.Results {
+				h += fr.Func + fmt.Sprint(fr.Set) + strings.Join(rr.Failing, ",") + "|" + siteSeq(rr.Trace) + "|" + rr.Err + "|" + rr.Dst + "|" + rr.Panic + "\n"
+			}
+		}
+		res.Log += " driver=" + sim.HashBytes([]byte(h))
+	}
 	byName := map[string]*gensim.MethodMeta{}
 	for i := range c.Meta.Methods {
 		byName[c.Meta.Methods[i].Name] = &c.Meta.Methods[i]
@@ -785,5 +795,12 @@ func runGen(cfg Config, args []string, prop string) int {
 		b.Required = []string{"n:hook_histories_checked", "n:sentinel_differentials", "n:misfit_hooks_tried"}
 	}
 	rep := RunBatch(b, start)
+	// evaluations = executions of generated functions (plans), not worlds
+	rep.Stats.Counters["n:worlds_generated"] = rep.Stats.Counters["evaluations"]
+	if prop == "C07" {
+		rep.Stats.Counters["evaluations"] = rep.Stats.Counters["n:plans_executed"] + rep.Stats.Counters["n:noerr_functions_inspected"]
+	} else {
+		rep.Stats.Counters["evaluations"] = rep.Stats.Counters["n:hook_histories_checked"] + rep.Stats.Counters["n:misfit_hooks_tried"]
+	}
 	return Finish(rep)
 }
